@@ -227,6 +227,7 @@ pub static C16: Profile = Profile {
     liveness: false,
     enumerate: None,
     extra: Some(c16_extra),
+    borrow: &[],
     assumptions: &["the enumeration runs on the real crate only (guard off)"],
 };
 
@@ -620,6 +621,7 @@ pub static C17: Profile = Profile {
     liveness: true,
     enumerate: Some(c17_enumerate),
     extra: None,
+    borrow: &[],
     assumptions: &[
         "sequences in which without_reducer() is later followed by with_reducers(vec![]) are left unspecified (either outcome accepted)",
         "the capacity/policy probe is run for configured capacities <= 3 and when at least one reducer or middleware exists to hold the pipeline",
